@@ -126,6 +126,27 @@ func mkSetInt(fn string, v int64, e int) (ev CEv) {
 	return ev
 }
 
+// mkNewBig: NewWithBigInt on an arbitrary-size integer; the argument must be represented exactly and left unchanged.
+func mkNewBig(v *big.Int, e int) (ev CEv) {
+	ev = newC("newbig", "NewWithBigInt")
+	ev.V = IntV{N: v.Sign() < 0, C: limbsOf(v)}
+	ev.E = e
+	ev.Key = "newbig|" + v.String() + "|" + fmt.Sprint(e)
+	if len(ev.Key) > 120 {
+		ev.Key = ev.Key[:110] + fmt.Sprintf("..(%d bits)|%d", v.BitLen(), e)
+	}
+	defer guard(&ev)
+	var arg apd.BigInt
+	arg.SetMathBigInt(v)
+	d := apd.NewWithBigInt(&arg, int32(e))
+	ev.Res = encDec(d)
+	// use the result in place, then look at the argument again
+	d.Coeff.Add(&d.Coeff, apd.NewBigInt(1))
+	after := arg.MathBigInt()
+	ev.Back = Flt{Cls: "zero", M: limbsOf(after), N: after.Sign() < 0}
+	return ev
+}
+
 func mkFloat64(dj Dec) (ev CEv) {
 	ev = newC("float64", "Float64")
 	ev.D = dj
@@ -150,6 +171,11 @@ func mkSetFloat(f float64) (ev CEv) {
 		ev.Res = encDec(&d)
 		back, _ := d.Float64()
 		ev.Back = encFlt(back)
+	}
+	// the same float into a destination that held another value (C06)
+	used := apd.New(-987654321, 33)
+	if _, err2 := used.SetFloat64(f); err2 == nil {
+		ev.Res2 = encDec(used)
 	}
 	return ev
 }
@@ -232,6 +258,8 @@ func init() {
 				v.Neg(v)
 			}
 			return mkSetInt(ev.Fn, v.Int64(), ev.E)
+		case "newbig":
+			return mkNewBig(bigOfIntV(ev.V), ev.E)
 		case "float64":
 			return mkFloat64(ev.D)
 		case "setfloat":
@@ -314,6 +342,9 @@ func dConv(g *G) {
 		for _, fn := range fns {
 			g.emit(mkSetInt(fn, v, g.R.between(-100000, 100000)), "setint")
 		}
+	}
+	for i := 0; i < g.pick(3000, 60000); i++ {
+		g.emit(mkNewBig(g.R.bigVal(), g.R.between(-50, 50)), "newbig")
 	}
 	// Modf: every exponent / digit-count relation on S and L, all nil patterns, aliased outputs
 	modf := func(x Dec) {
